@@ -459,6 +459,8 @@ class Engine(Interp):
                     m = fn
                     break
         if m is not None:
+            if name != "std::iter::Iterator::next":
+                self._untrack_iters(c)
             r = m(c)
             if r is not NotImplemented:
                 return c.results
@@ -474,6 +476,23 @@ class Engine(Interp):
         self.unmodelled[rname] += 1
         self.default_call(c)
         return c.results
+
+    def _untrack_iters(self, c):
+        """loop-universal inference follows the items an iterator hands out through next() only: any other modelled operation that gets
+        the iterator by reference may draw items from it unseen, which ends the tracking (see models._exhausted)"""
+        for i in range(len(c.args)):
+            v, _ = c.arg(i)
+            for _hop in range(2):
+                if not (isinstance(v, Ref) and v.cell is not None):
+                    break
+                loc = (v.cell, v.path)
+                tgt = self.read_loc(c.st, loc)
+                if isinstance(tgt, Iter):
+                    if tgt.seen is not None:
+                        c.st.cells[loc[0]] = set_at(c.st.cells[loc[0]], loc[1],
+                                                    Iter(tgt.ikind, tgt.remaining, tgt.elem, tgt.start, tgt.end, tgt.extra, tgt.cells, tgt.pos))
+                    break
+                v = tgt
 
     def default_call(self, c):
         """unknown callee: havoc everything reachable through &mut arguments, return ⊤"""
@@ -715,7 +734,11 @@ class Engine(Interp):
         return out
 
     def loop_key(self, st, frame, mod, has_next=False):
+        """partition key of a loop head.  Loops over concrete ranges / lengths are unrolled by the constant values of the locals they modify;
+        a loop driven by an iterator of unknown length is partitioned by its constant boolean locals only (flags such as `found`), which
+        keeps "flag still false" apart from "flag already set" without unrolling anything"""
         key = []
+        bools_only = False
         if has_next:
             # the loop is driven by an iterator: unroll only if some loop-carried iterator has a concrete length
             conc = False
@@ -727,23 +750,43 @@ class Engine(Interp):
                     if v.ikind == "range" and isinstance(v.end, Int) and v.end.is_const() and isinstance(v.start, Int) and v.start.is_const():
                         conc = True
             if not conc:
-                return ()
+                bools_only = True
+        for l in sorted(mod):
+            v = st.cells.get(frame.cell(l))
+            if isinstance(v, Iter):
+                # a loop driven by an iterator of unknown length is not unrolled
+                if v.ikind == "slice" and not (isinstance(v.remaining, Int) and v.remaining.is_const()):
+                    bools_only = True
+                if v.ikind == "range" and not (isinstance(v.end, Int) and v.end.is_const() and isinstance(v.start, Int) and v.start.is_const()):
+                    bools_only = True
+                if v.ikind == "opaque":
+                    bools_only = True
         for l in sorted(mod):
             v = st.cells.get(frame.cell(l))
             if v is None:
                 continue
-            if isinstance(v, Iter):
-                # a loop driven by an iterator of unknown length is not unrolled
-                if v.ikind == "slice" and not (isinstance(v.remaining, Int) and v.remaining.is_const()):
-                    return ()
-                if v.ikind == "range" and not (isinstance(v.end, Int) and v.end.is_const() and isinstance(v.start, Int) and v.start.is_const()):
-                    return ()
-                if v.ikind == "opaque":
-                    return ()
+            if bools_only:
+                if isinstance(v, Int) and v.bits == 1 and v.is_const():
+                    key.append((l, (), v.lo))
+                continue
             for p, leaf in int_leaves(v):
                 if leaf.is_const():
                     key.append((l, p, leaf.lo))
         return tuple(key)
+
+    def flag_key(self, st, frame, mod):
+        """the boolean-flags-only partition key of loop_key, or None when the loop is one that loop_key unrolls"""
+        key = []
+        unknown = False
+        for l in sorted(mod):
+            v = st.cells.get(frame.cell(l))
+            if isinstance(v, Iter):
+                if v.ikind == "opaque" or (v.ikind == "slice" and not (isinstance(v.remaining, Int) and v.remaining.is_const())) or \
+                        (v.ikind == "range" and not (isinstance(v.end, Int) and v.end.is_const() and isinstance(v.start, Int) and v.start.is_const())):
+                    unknown = True
+            elif isinstance(v, Int) and v.bits == 1 and v.is_const():
+                key.append((l, (), v.lo))
+        return tuple(key) if unknown else None
 
     def rpo_index(self, body):
         """reverse-postorder number of every block: the worklist takes the smallest first, so a loop is iterated to stability before the code
@@ -808,6 +851,15 @@ class Engine(Interp):
                 for h, (scc, mod, _hn) in loops.items():
                     if from_bb in scc and bb not in scc:
                         tag = tuple(x for x in tag if not (isinstance(x, tuple) and len(x) == 4 and x[0] == "L" and x[1] == frame.uid and x[2] == h))
+            if from_bb is not None:
+                # inside the body of an iterator-driven loop the constant boolean flags it modifies keep the states apart as well, so that
+                # what was established on the path that left a flag untouched is not merged with the path that set it before the loop head
+                for h, (scc, mod, hn) in loops.items():
+                    if hn and bb != h and bb in scc and (body.key, h) not in self.part_overflow:
+                        fk = self.flag_key(s, frame, mod)
+                        if fk is not None:
+                            tag = tuple(x for x in tag if not (isinstance(x, tuple) and len(x) == 4 and x[0] == "L" and x[1] == frame.uid and x[2] == h))
+                            tag = tag + (("L", frame.uid, h, fk),)
             if bb in loops:
                 scc, mod, has_next = loops[bb]
                 tag = tuple(x for x in tag if not (isinstance(x, tuple) and len(x) == 4 and x[0] == "L" and x[1] == frame.uid and x[2] == bb))
